@@ -50,42 +50,42 @@ Section HalSingle.
   Hypothesis Hn : 0 <= n.
 
   Lemma suffices_vec_znx_normalize : run_takes (t_vec_znx_normalize n) (0, hal_vec_znx_normalize_tmp_bytes fam n) <> None.
-  Proof. autounfold with c12gen. apply single_take_words; lia. Qed.
+  Proof using Hf Hn. autounfold with c12gen. apply single_take_words; lia. Qed.
   Lemma suffices_vec_znx_rsh : run_takes (t_vec_znx_rsh n) (0, hal_vec_znx_rsh_tmp_bytes fam n) <> None.
-  Proof. autounfold with c12gen. apply single_take_words; lia. Qed.
+  Proof using Hf Hn. autounfold with c12gen. apply single_take_words; lia. Qed.
   Lemma suffices_vec_znx_lsh : run_takes (t_vec_znx_lsh n) (0, hal_vec_znx_lsh_tmp_bytes fam n) <> None.
-  Proof. autounfold with c12gen. apply single_take_words; lia. Qed.
+  Proof using Hf Hn. autounfold with c12gen. apply single_take_words; lia. Qed.
   Lemma suffices_vec_znx_rotate_assign : run_takes (t_vec_znx_rotate_assign n) (0, hal_vec_znx_rotate_assign_tmp_bytes fam n) <> None.
-  Proof. autounfold with c12gen. apply single_take_words; lia. Qed.
+  Proof using Hf Hn. autounfold with c12gen. apply single_take_words; lia. Qed.
   Lemma suffices_vec_znx_automorphism_assign :
     run_takes (t_vec_znx_automorphism_assign n) (0, hal_vec_znx_automorphism_assign_tmp_bytes fam n) <> None.
-  Proof. autounfold with c12gen. apply single_take_words; lia. Qed.
+  Proof using Hf Hn. autounfold with c12gen. apply single_take_words; lia. Qed.
   Lemma suffices_vec_znx_mul_xp_minus_one_assign :
     run_takes (t_vec_znx_mul_xp_minus_one_assign n) (0, hal_vec_znx_mul_xp_minus_one_assign_tmp_bytes fam n) <> None.
-  Proof. autounfold with c12gen. apply single_take_words; lia. Qed.
+  Proof using Hf Hn. autounfold with c12gen. apply single_take_words; lia. Qed.
   Lemma suffices_vec_znx_split_ring : run_takes (t_vec_znx_split_ring n) (0, hal_vec_znx_split_ring_tmp_bytes fam n) <> None.
-  Proof. autounfold with c12gen. apply single_take_words; lia. Qed.
+  Proof using Hf Hn. autounfold with c12gen. apply single_take_words; lia. Qed.
   Lemma suffices_vec_znx_merge_rings : run_takes (t_vec_znx_merge_rings n) (0, hal_vec_znx_merge_rings_tmp_bytes fam n) <> None.
-  Proof. autounfold with c12gen. apply single_take_words; lia. Qed.
+  Proof using Hf Hn. autounfold with c12gen. apply single_take_words; lia. Qed.
 
   Lemma suffices_vec_znx_big_normalize : run_takes (t_big_normalize fam n) (0, hal_vec_znx_big_normalize_tmp_bytes fam n) <> None.
-  Proof. unfold t_big_normalize. autounfold with c12gen. fam_cases Hf; apply single_take_words; lia. Qed.
+  Proof using Hf Hn. unfold t_big_normalize. autounfold with c12gen. fam_cases Hf; apply single_take_words; lia. Qed.
   Lemma suffices_vec_znx_big_automorphism_assign :
     run_takes (t_big_automorphism_assign fam n) (0, hal_vec_znx_big_automorphism_assign_tmp_bytes fam n) <> None.
-  Proof. unfold t_big_automorphism_assign. autounfold with c12gen. fam_cases Hf; apply single_take_words; lia. Qed.
+  Proof using Hf Hn. unfold t_big_automorphism_assign. autounfold with c12gen. fam_cases Hf; apply single_take_words; lia. Qed.
   Lemma suffices_vec_znx_idft_apply : run_takes (t_idft_apply fam n) (0, hal_vec_znx_idft_apply_tmp_bytes fam n) <> None.
-  Proof.
+  Proof using Hf Hn.
     unfold t_idft_apply. autounfold with c12gen. fam_cases Hf; [vm_compute; congruence | apply single_take_words; lia].
   Qed.
   Lemma suffices_vmp_prepare (rows cols_in cols_out size : Z) :
     run_takes (t_vmp_prepare fam n) (0, hal_vmp_prepare_tmp_bytes fam n rows cols_in cols_out size) <> None.
-  Proof. unfold t_vmp_prepare. autounfold with c12gen. fam_cases Hf; apply single_take_words; lia. Qed.
+  Proof using Hf Hn. unfold t_vmp_prepare. autounfold with c12gen. fam_cases Hf; apply single_take_words; lia. Qed.
 
   Lemma suffices_vmp_apply_dft_to_dft (res_size a_size rows cols_in cols_out size : Z) :
     0 <= a_size -> 0 <= rows -> 0 <= cols_in ->
     run_takes (t_vmp_apply_dft_to_dft fam a_size rows cols_in)
               (0, hal_vmp_apply_dft_to_dft_tmp_bytes fam n res_size a_size rows cols_in cols_out size) <> None.
-  Proof.
+  Proof using Hf Hn.
     intros Ha Hr Hc. unfold t_vmp_apply_dft_to_dft. autounfold with c12gen.
     assert (0 <= Z.min a_size rows * cols_in) by nn.
     fam_cases Hf; apply single_take_words; lia.
@@ -94,34 +94,34 @@ Section HalSingle.
   (* convolution; the size queries are called as the API documents them: (cnv_offset, res_size, a_size, b_size) *)
   Lemma suffices_cnv_prepare_left (rs a : Z) : 0 <= rs -> 0 <= a ->
     run_takes (t_cnv_prepare_left fam n rs a) (0, api_cnv_prepare_left_tmp_bytes fam n rs a) <> None.
-  Proof.
+  Proof using Hf Hn.
     intros. unfold t_cnv_prepare_left. autounfold with c12gen.
     assert (0 <= n * 1 * Z.min rs a) by nn.
     fam_cases Hf; cbn [Z.eqb]; apply single_take; lia.
   Qed.
   Lemma suffices_cnv_prepare_right (rs a : Z) : 0 <= rs -> 0 <= a ->
     run_takes (t_cnv_prepare_right fam n rs a) (0, api_cnv_prepare_right_tmp_bytes fam n rs a) <> None.
-  Proof.
+  Proof using Hf Hn.
     intros. unfold t_cnv_prepare_right. autounfold with c12gen.
     assert (0 <= n * 1 * Z.min rs a) by nn.
     fam_cases Hf; cbn [Z.eqb]; [apply single_take; lia | apply single_take_words; lia].
   Qed.
   Lemma suffices_cnv_prepare_self (rs a : Z) : 0 <= rs -> 0 <= a ->
     run_takes (t_cnv_prepare_self fam n rs a) (0, api_cnv_prepare_self_tmp_bytes fam n rs a) <> None.
-  Proof.
+  Proof using Hf Hn.
     intros. unfold t_cnv_prepare_self. autounfold with c12gen.
     assert (0 <= n * 1 * Z.min rs a) by nn.
     fam_cases Hf; cbn [Z.eqb]; apply single_take; lia.
   Qed.
   Lemma suffices_cnv_apply_dft (cnv_offset rs a b : Z) : 0 <= rs -> 1 <= a -> 1 <= b ->
     run_takes (t_cnv_apply_dft fam rs a b) (0, api_cnv_apply_dft_tmp_bytes fam n cnv_offset rs a b) <> None.
-  Proof.
+  Proof using Hf Hn.
     intros. unfold t_cnv_apply_dft. autounfold with c12gen.
     fam_cases Hf; cbn [Z.eqb]; [apply single_take_words; lia | apply single_take; lia].
   Qed.
   Lemma suffices_cnv_by_const_apply (cnv_offset rs a b : Z) : 0 <= rs -> 1 <= a -> 1 <= b ->
     run_takes (t_cnv_by_const_apply fam rs a b) (0, api_cnv_by_const_apply_tmp_bytes fam n cnv_offset rs a b) <> None.
-  Proof.
+  Proof using Hf Hn.
     intros. unfold t_cnv_by_const_apply. autounfold with c12gen.
     fam_cases Hf; cbn [Z.eqb]; [apply single_take_words; lia | apply single_take; lia].
   Qed.
@@ -162,28 +162,28 @@ Section Callee.
 
   Lemma callee_normalize :
     aligned_tree (t_vec_znx_normalize n) /\ demand (t_vec_znx_normalize n) = hal_vec_znx_normalize_tmp_bytes fam n.
-  Proof. unfold t_vec_znx_normalize, take_words. autounfold with c12gen. cbn [aligned_tree demand]. unfold ALIGN. lia. Qed.
+  Proof using Hf Hn0 Hn8. unfold t_vec_znx_normalize, take_words. autounfold with c12gen. cbn [aligned_tree demand]. unfold ALIGN. lia. Qed.
   Lemma callee_rsh : aligned_tree (t_vec_znx_rsh n) /\ demand (t_vec_znx_rsh n) = hal_vec_znx_rsh_tmp_bytes fam n.
-  Proof. unfold t_vec_znx_rsh, take_words. autounfold with c12gen. cbn [aligned_tree demand]. unfold ALIGN. lia. Qed.
+  Proof using Hf Hn0 Hn8. unfold t_vec_znx_rsh, take_words. autounfold with c12gen. cbn [aligned_tree demand]. unfold ALIGN. lia. Qed.
   Lemma callee_lsh : aligned_tree (t_vec_znx_lsh n) /\ demand (t_vec_znx_lsh n) = hal_vec_znx_lsh_tmp_bytes fam n.
-  Proof. unfold t_vec_znx_lsh, take_words. autounfold with c12gen. cbn [aligned_tree demand]. unfold ALIGN. lia. Qed.
+  Proof using Hf Hn0 Hn8. unfold t_vec_znx_lsh, take_words. autounfold with c12gen. cbn [aligned_tree demand]. unfold ALIGN. lia. Qed.
   Lemma callee_rotate_assign :
     aligned_tree (t_vec_znx_rotate_assign n) /\ demand (t_vec_znx_rotate_assign n) = hal_vec_znx_rotate_assign_tmp_bytes fam n.
-  Proof. unfold t_vec_znx_rotate_assign, take_words. autounfold with c12gen. cbn [aligned_tree demand]. unfold ALIGN. lia. Qed.
+  Proof using Hf Hn0 Hn8. unfold t_vec_znx_rotate_assign, take_words. autounfold with c12gen. cbn [aligned_tree demand]. unfold ALIGN. lia. Qed.
   Lemma callee_automorphism_assign :
     aligned_tree (t_vec_znx_automorphism_assign n) /\
     demand (t_vec_znx_automorphism_assign n) = hal_vec_znx_automorphism_assign_tmp_bytes fam n.
-  Proof. unfold t_vec_znx_automorphism_assign, take_words. autounfold with c12gen. cbn [aligned_tree demand]. unfold ALIGN. lia. Qed.
+  Proof using Hf Hn0 Hn8. unfold t_vec_znx_automorphism_assign, take_words. autounfold with c12gen. cbn [aligned_tree demand]. unfold ALIGN. lia. Qed.
   Lemma callee_big_normalize :
     aligned_tree (t_big_normalize fam n) /\ demand (t_big_normalize fam n) = hal_vec_znx_big_normalize_tmp_bytes fam n.
-  Proof.
+  Proof using Hf Hn0 Hn8.
     unfold t_big_normalize, take_words. autounfold with c12gen.
     destruct Hf as [-> | ->]; cbn [Z.eqb aligned_tree demand]; unfold ALIGN; lia.
   Qed.
   Lemma callee_big_automorphism_assign :
     aligned_tree (t_big_automorphism_assign fam n) /\
     demand (t_big_automorphism_assign fam n) = hal_vec_znx_big_automorphism_assign_tmp_bytes fam n.
-  Proof.
+  Proof using Hf Hn0 Hn8.
     unfold t_big_automorphism_assign, take_words. autounfold with c12gen.
     destruct Hf as [-> | ->]; cbn [Z.eqb aligned_tree demand]; unfold ALIGN; lia.
   Qed.
@@ -192,7 +192,7 @@ Section Callee.
     aligned_tree (t_vmp_apply_dft_to_dft fam a_size rows cols_in) /\
     demand (t_vmp_apply_dft_to_dft fam a_size rows cols_in)
       = hal_vmp_apply_dft_to_dft_tmp_bytes fam n res_size a_size rows cols_in cols_out size.
-  Proof.
+  Proof using Hf Hn0 Hn8.
     intros Ha Hr Hc. unfold t_vmp_apply_dft_to_dft, take_words. autounfold with c12gen.
     assert (0 <= Z.min a_size rows * cols_in) by nn.
     destruct Hf as [-> | ->]; cbn [Z.eqb aligned_tree demand]; unfold ALIGN; lia.
@@ -217,20 +217,24 @@ Section Bytes.
   Hypothesis Hn8 : n mod 8 = 0.
 
   Lemma al_vec_znx (c s : Z) : 0 <= c -> 0 <= s -> 0 <= VecZnx_bytes_of n c s /\ VecZnx_bytes_of n c s mod 64 = 0.
-  Proof. intros. unfold VecZnx_bytes_of. assert (0 <= n * c * s) by nn. lia. Qed.
+  Proof using Hf Hn0 Hn8. intros. unfold VecZnx_bytes_of. assert (0 <= n * c * s) by nn. lia. Qed.
   Lemma al_scalar_znx (c : Z) : 0 <= c -> 0 <= ScalarZnx_bytes_of n c /\ ScalarZnx_bytes_of n c mod 64 = 0.
-  Proof. intros. unfold ScalarZnx_bytes_of. assert (0 <= n * c) by nn. lia. Qed.
+  Proof using Hf Hn0 Hn8. intros. unfold ScalarZnx_bytes_of. assert (0 <= n * c) by nn. lia. Qed.
   Lemma al_dft (c s : Z) : 0 <= c -> 0 <= s ->
     0 <= hal_bytes_of_vec_znx_dft fam n c s /\ hal_bytes_of_vec_znx_dft fam n c s mod 64 = 0.
-  Proof. intros. autounfold with c12gen. assert (0 <= n * c * s) by nn. destruct Hf as [-> | ->]; cbn [Z.eqb]; lia. Qed.
+  Proof using Hf Hn0 Hn8. intros. autounfold with c12gen. assert (0 <= n * c * s) by nn. destruct Hf as [-> | ->]; cbn [Z.eqb]; lia. Qed.
   Lemma al_big (c s : Z) : 0 <= c -> 0 <= s ->
     0 <= hal_bytes_of_vec_znx_big fam n c s /\ hal_bytes_of_vec_znx_big fam n c s mod 64 = 0.
-  Proof. intros. autounfold with c12gen. assert (0 <= n * c * s) by nn. destruct Hf as [-> | ->]; cbn [Z.eqb]; lia. Qed.
+  Proof using Hf Hn0 Hn8. intros. autounfold with c12gen. assert (0 <= n * c * s) by nn. destruct Hf as [-> | ->]; cbn [Z.eqb]; lia. Qed.
   Lemma al_svp (c : Z) : 0 <= c -> 0 <= hal_bytes_of_svp_ppol fam n c /\ hal_bytes_of_svp_ppol fam n c mod 64 = 0.
-  Proof. intros. autounfold with c12gen. assert (0 <= n * c) by nn. destruct Hf as [-> | ->]; cbn [Z.eqb]; lia. Qed.
+  Proof using Hf Hn0 Hn8. intros. autounfold with c12gen. assert (0 <= n * c) by nn. destruct Hf as [-> | ->]; cbn [Z.eqb]; lia. Qed.
+  Lemma nn_norm : 0 <= hal_vec_znx_normalize_tmp_bytes fam n.
+  Proof using Hf Hn0 Hn8. autounfold with c12gen. lia. Qed.
+  Lemma nn_bnorm : 0 <= hal_vec_znx_big_normalize_tmp_bytes fam n.
+  Proof using Hf Hn0 Hn8. autounfold with c12gen. destruct Hf as [-> | ->]; cbn [Z.eqb]; lia. Qed.
   (* sizes grow with the number of limbs *)
   Lemma dft_mono (c s s' : Z) : 0 <= c -> s' <= s -> hal_bytes_of_vec_znx_dft fam n c s' <= hal_bytes_of_vec_znx_dft fam n c s.
-  Proof.
+  Proof using Hf Hn0 Hn8.
     intros. autounfold with c12gen. assert (n * c * s' <= n * c * s) by (apply Z.mul_le_mono_nonneg_l; [nn|lia]).
     destruct Hf as [-> | ->]; cbn [Z.eqb]; lia.
   Qed.
